@@ -461,7 +461,7 @@ Section CommitProofs.
                                    pmem p (ng_matches r) = true -> matches (ng_pat r) p = true
   }.
 
-  (* the precondition violated by C14-D11: no detached file node sits on a path that an attached
+  (* the precondition violated by D15: no detached file node sits on a path that an attached
      pattern matches (only needed while the commit re-hashes detached nodes too) *)
   Definition detached_unmatched (g : G) : Prop :=
     forall f, In f (g_files g) -> f_attached f = false -> matches_any_glob rest matches g (f_path f) = false.
@@ -649,28 +649,165 @@ Section FailedProofs.
 End FailedProofs.
 
 (* ------------------------------------------------------------------------------------------ *)
-(* C14-D11: a detached UNDECLARED node on a glob-matched path                                  *)
+(* D15: a detached UNDECLARED node on a glob-matched path                                  *)
 (* ------------------------------------------------------------------------------------------ *)
 
-Definition p_D11 : path := [110;46;116;120;116].   (* "n.txt" *)
-Definition g_D11 : gstate unit :=
-  mk_g [mk_fnode p_D11 false FS_UNDECLARED None]
+Definition p_D15 : path := [110;46;116;120;116].   (* "n.txt" *)
+Definition g_D15 : gstate unit :=
+  mk_g [mk_fnode p_D15 false FS_UNDECLARED None]
             [mk_ng 0 [112] true []] tt.
 Definition id_action : action -> path -> list fnode * unit -> list fnode * unit := fun _ _ x => x.
 Definition id_nglob : str -> list fnode * unit -> list fnode * unit := fun _ x => x.
-Definition hash_D11 : path -> option fh := fun _ => Some 7.
+Definition hash_D15 : path -> option fh := fun _ => Some 7.
 Definition all_match : N -> path -> bool := fun _ _ => true.
 
-Lemma D11_watch_commit_errors :
-  watch_commit_gen unit id_action id_nglob hash_D11 all_match [p_D11] false g_D11 [p_D11] [] = None.
+Lemma D15_watch_commit_errors :
+  watch_commit_gen unit id_action id_nglob hash_D15 all_match [p_D15] false g_D15 [p_D15] [] = None.
 Proof. vm_compute. reflexivity. Qed.
 
-Lemma D11_rescan_ok :
-  startup_rescan unit id_action id_nglob hash_D11 (fun _ => true) all_match [p_D11] g_D11
-  = Some (mk_g [mk_fnode p_D11 false FS_UNDECLARED None] [mk_ng 0 [112] true [p_D11]] tt).
+Lemma D15_rescan_ok :
+  startup_rescan unit id_action id_nglob hash_D15 (fun _ => true) all_match [p_D15] g_D15
+  = Some (mk_g [mk_fnode p_D15 false FS_UNDECLARED None] [mk_ng 0 [112] true [p_D15]] tt).
 Proof. vm_compute. reflexivity. Qed.
 
-Lemma D11_attached_only_agrees :
-  watch_commit_gen unit id_action id_nglob hash_D11 all_match [p_D11] true g_D11 [p_D11] []
-  = startup_rescan unit id_action id_nglob hash_D11 (fun _ => true) all_match [p_D11] g_D11.
+Lemma D15_attached_only_agrees :
+  watch_commit_gen unit id_action id_nglob hash_D15 all_match [p_D15] true g_D15 [p_D15] []
+  = startup_rescan unit id_action id_nglob hash_D15 (fun _ => true) all_match [p_D15] g_D15.
 Proof. vm_compute. reflexivity. Qed.
+
+(* ------------------------------------------------------------------------------------------ *)
+(* (a) directories: a watched directory that is removed or moved away; a directory that       *)
+(* (re)appears and was once watched                                                            *)
+(* ------------------------------------------------------------------------------------------ *)
+
+Lemma w_get_set_same w p v : w_get (w_set w p v) p = Some v.
+Proof.
+  induction w as [|[q u] w IH]; cbn.
+  - rewrite str_eqb_refl. reflexivity.
+  - destruct (str_eqb q p) eqn:E; cbn; rewrite E; [reflexivity | exact IH].
+Qed.
+
+Lemma w_get_set_other w p v x : str_eqb p x = false -> w_get (w_set w p v) x = w_get w x.
+Proof.
+  intros Hpx. induction w as [|[q u] w IH]; cbn.
+  - rewrite Hpx. reflexivity.
+  - destruct (str_eqb q p) eqn:E; cbn.
+    + apply str_eqb_eq in E. subst q. rewrite Hpx. reflexivity.
+    + destruct (str_eqb q x); [reflexivity | exact IH].
+Qed.
+
+Lemma rescan_keeps_installed fuel self t : forall w todo d,
+  w_get w d = Some true -> w_get (fst (rescan fuel self t w todo)) d = Some true.
+Proof.
+  induction fuel as [|fuel IH]; intros w todo d H; cbn [rescan]; [exact H|].
+  destruct todo as [|c rest]; [exact H|].
+  destruct (w_get w c) as [inst|] eqn:G; cbn [fst].
+  - apply IH. destruct inst; [exact H|].
+    destruct (str_eqb c d) eqn:E.
+    + apply str_eqb_eq in E. subst c. apply w_get_set_same.
+    + rewrite w_get_set_other by exact E. exact H.
+  - apply IH. exact H.
+Qed.
+
+Definition created_mask (m : N) : Prop := m = M_CREATE + M_ISDIR \/ m = M_MOVED_TO + M_ISDIR.
+Definition removed_mask (m : N) : Prop := m = M_DELETE + M_ISDIR \/ m = M_MOVED_FROM + M_ISDIR.
+
+(* A directory that appears (created or moved in) and is a key of `watches` (installed or pending):
+   its watch is installed afterwards and every regular file directly inside it is queued. *)
+Lemma appeared_dir_children_covered self t w d inst m :
+  created_mask m -> w_get w d = Some inst ->
+  let r := process_event_gen self t w (mk_event m d) in
+  w_get (fst r) d = Some true /\
+  forall x, t_is_file t x = true -> is_child d x = true -> In (mk_item Updated x false) (snd r).
+Proof.
+  intros Hm G. unfold process_event_gen. cbn [ev_mask ev_path].
+  assert (Hbits : has_bit m M_IGNORED = false /\ has_bit m M_ISDIR = true /\ is_deleted_mask m = false).
+  { destruct Hm as [-> | ->]; vm_compute; repeat split; reflexivity. }
+  destruct Hbits as [-> [-> ->]].
+  cbn [rescan]. rewrite G. cbn [fst snd]. split.
+  - apply rescan_keeps_installed. destruct inst; [exact G | apply w_get_set_same].
+  - intros x Hf Hc. apply in_or_app. right. apply in_or_app. left.
+    apply (in_map (fun q => mk_item Updated q false)). apply filter_In. split; [|exact Hf].
+    unfold t_is_file in Hf. apply existsb_exists in Hf as [e [He Hx]].
+    apply andb_true_iff in Hx as [Hx _]. apply str_eqb_eq in Hx. subst x.
+    unfold t_children. apply in_map. apply filter_In. split; assumption.
+Qed.
+
+(* A directory with an installed watch that is removed or moved away: DELETED_PARENT is queued and
+   the watch becomes pending. *)
+Lemma removed_dir_emits_deleted_parent self t w d m :
+  removed_mask m -> w_get w d = Some true ->
+  let r := process_event_gen self t w (mk_event m d) in
+  w_get (fst r) d = Some false /\
+  snd r = mk_item DeletedParent d false :: (if self then [mk_item Deleted (dir_label d) false] else []).
+Proof.
+  intros Hm G. unfold process_event_gen. cbn [ev_mask ev_path].
+  assert (Hbits : has_bit m M_IGNORED = false /\ has_bit m M_ISDIR = true /\ is_deleted_mask m = true).
+  { destruct Hm as [-> | ->]; vm_compute; repeat split; reflexivity. }
+  destruct Hbits as [-> [-> ->]]. rewrite G. cbn [fst snd]. split; [apply w_get_set_same | reflexivity].
+Qed.
+
+(* Whatever was recorded before, once DELETED_PARENT d is recorded every path listed under d is in
+   `deleted` and not in `updated`. *)
+Lemma deleted_parent_marks_all relevant under items d b p :
+  In p (under b d) ->
+  let w := fold_changes relevant under (items ++ [mk_item DeletedParent d b]) ws_empty in
+  pmem p (ws_deleted w) = true /\ pmem p (ws_updated w) = false.
+Proof.
+  intros Hin w.
+  destruct (fold_last_event_wins relevant under (items ++ [mk_item DeletedParent d b]) p) as [HU [HD _]].
+  fold w in HU, HD.
+  assert (L : last_effect relevant under (items ++ [mk_item DeletedParent d b]) p = Some false).
+  { rewrite last_effect_app. cbn [last_effect]. unfold effect. cbn [it_change it_build it_path].
+    apply pmem_In in Hin. rewrite Hin. reflexivity. }
+  split; [apply HD; exact L|].
+  destruct HU as [HU1 _].
+  destruct (pmem p (ws_updated w)) eqn:E; [|reflexivity]. specialize (HU1 eq_refl). congruence.
+Qed.
+
+Lemma dedup_In l : forall seen p, In p (dedup l seen) <-> In p l /\ pmem p seen = false.
+Proof.
+  induction l as [|q l IH]; intros seen p; cbn [dedup].
+  - split; [contradiction | intros [[] _]].
+  - destruct (pmem q seen) eqn:Q.
+    + rewrite IH. split.
+      * intros [H1 H2]. split; [right; exact H1 | exact H2].
+      * intros [[->|H1] H2]; [congruence | split; assumption].
+    + cbn [In]. rewrite IH, pmem_cons. split.
+      * intros [->|[H1 H2]]; [split; [left; reflexivity | exact Q]|].
+        apply orb_false_iff in H2 as [_ H2]. split; [right; exact H1 | exact H2].
+      * intros [[->|H1] H2]; [left; reflexivity|].
+        destruct (str_eqb p q) eqn:E; [apply str_eqb_eq in E; left; congruence|].
+        right. split; [exact H1|]. rewrite H2. reflexivity.
+Qed.
+
+Definition dir_pre (d : path) : path :=
+  if str_eqb (skipn (length d - 1) d) [SLASH] then d else d ++ [SLASH].
+
+Section UnderSpec.
+  Variable rest : Type.
+
+  (* relevant_paths_under lists exactly: attached nodes in a relevant state with a label under d/, and
+     recorded matches of attached registrations under d/. *)
+  Lemma relevant_paths_under_spec (g : gstate rest) b d p :
+    In p (relevant_paths_under rest g b d) <->
+    (exists f, In f (g_files g) /\ f_attached f = true /\
+               mem_fstate (f_state f) (if b then relevant_states_during_build else relevant_states) = true /\
+               is_prefix (dir_pre d) (f_path f) = true /\ f_path f = p) \/
+    (exists r, In r (g_nglobs g) /\ ng_attached r = true /\ In p (ng_matches r) /\
+               is_prefix (dir_pre d) p = true).
+  Proof.
+    unfold relevant_paths_under. cbv zeta. fold (dir_pre d).
+    rewrite dedup_In, in_app_iff. split.
+    - intros [[H|H] _].
+      + left. apply in_map_iff in H as [f [E H]]. apply filter_In in H as [H1 H2].
+        apply andb_true_iff in H2 as [H2 H4]. apply andb_true_iff in H2 as [H2 H3].
+        exists f. repeat split; assumption.
+      + right. apply in_flat_map in H as [r [H1 H2]]. destruct (ng_attached r) eqn:A; [|contradiction].
+        apply filter_In in H2 as [H2 H3]. exists r. repeat split; assumption.
+    - intros [[f [H1 [H2 [H3 [H4 E]]]]] | [r [H1 [H2 [H3 H4]]]]]; (split; [|reflexivity]).
+      + left. apply in_map_iff. exists f. split; [exact E|]. apply filter_In. split; [exact H1|].
+        rewrite H2, H3, H4. reflexivity.
+      + right. apply in_flat_map. exists r. split; [exact H1|]. rewrite H2. apply filter_In. split; assumption.
+  Qed.
+End UnderSpec.
